@@ -15,6 +15,9 @@ C12 driver. Input lines (one answer line each):
   equalise <cutoffs> <lens>                → `<cutoffs'> <lens'>`        (tempering preamble)
   swap <site> <cutA> <occA> <cutB> <occB>  → `<cutA'> <lenA'> <nA'> <cutB'> <lenB'> <nB'>` (raw `swap_manager_and_state`)
   convert <nvars> <cutoff> <occ bits>      → `<cutoff> <len> <n>`        (`into_qmc`)
+  usercut <site> <c> <cutoff> <occ bits>   → `<cutoff> <len> <n> <fits>` (`set_cutoff` / `set_op_cutoff` with ANY c, also below the
+                                              current cutoff: a user-supplied cutoff in the middle of a run; fits = every operator below c)
+  restore <site> <c> <occ bits>            → `<cutoff> <len> <n> <fits>` (saved container put into a new sampler through the manager hook, cutoff c)
 -/
 def step (toks : List String) : String :=
   match toks with
@@ -42,6 +45,12 @@ def step (toks : List String) : String :=
   | ["setcut", c, cut, occ] =>
     let s := CSampler.setCutoff (parseNat c) { cutoff := parseNat cut, occ := parseBits occ }
     s!"{s.cutoff} {s.len} {s.n}"
+  | ["usercut", _site, c, cut, occ] =>
+    let s := CSampler.setCutoff (parseNat c) { cutoff := parseNat cut, occ := parseBits occ }
+    s!"{s.cutoff} {s.len} {s.n} {showBool s.fitsB}"
+  | ["restore", _site, c, occ] =>
+    let s := CSampler.restore (parseNat c) (parseBits occ)
+    s!"{s.cutoff} {s.len} {s.n} {showBool s.fitsB}"
   | ["swap", _site, ca, oa, cb, ob] =>
     let r := swapSamplers { cutoff := parseNat ca, occ := parseBits oa } { cutoff := parseNat cb, occ := parseBits ob }
     s!"{r.1.cutoff} {r.1.len} {r.1.n} {r.2.cutoff} {r.2.len} {r.2.n}"
